@@ -18,7 +18,7 @@ for sid in sorted(res):
     caught = []
     for p, v in sorted(res[sid].items()):
         if v['rc']:
-            strong = '_oracle_' in v['violation'] and 'no-failing-input-found' not in v['violation']
+            strong = 'no-failing-input-found' not in v['violation']
             caught.append(f'**{p}**' if strong else p)
     own = meta['breaks_property']
     flag = '' if any(c.strip('*') == own for c in caught) else ' (NOT caught by its own check)'
